@@ -34,13 +34,13 @@ pub mod prelude {
     impl Key for ::core::num::NonZeroU8 { fn key(&self) -> i64 { self.get() as i64 } }
 
     // ---------------------------------------------------------------- Inc: NaN-like incomparability without floats
-    // Values with different parity classes (v % 4 == 3 on either side) are incomparable.
+    // A value with v % 4 == 3 is incomparable with everything, itself included (like NaN).
     #[derive(Debug, Clone, Copy, PartialEq, Eq, Hash, Default)]
     pub struct Inc(pub u8);
     impl PartialOrd for Inc {
         fn partial_cmp(&self, o: &Self) -> Option<Ordering> {
-            if self.0 == o.0 { Some(Ordering::Equal) }
-            else if self.0 % 4 == 3 || o.0 % 4 == 3 { None }
+            if self.0 % 4 == 3 || o.0 % 4 == 3 { None }
+            else if self.0 == o.0 { Some(Ordering::Equal) }
             else { self.0.partial_cmp(&o.0) }
         }
     }
@@ -97,7 +97,7 @@ pub mod prelude {
     pub fn m_pcmp_rev<T: Key + ?Sized>(a: &T, b: &T) -> Option<Ordering> { b.key().partial_cmp(&a.key()) }
     pub fn m_pcmp_none<T: Key + ?Sized>(a: &T, b: &T) -> Option<Ordering> {
         let (x, y) = (a.key(), b.key());
-        if x == y { Some(Ordering::Equal) } else if (x - y).rem_euclid(2) == 1 { None } else { x.partial_cmp(&y) }
+        if x.rem_euclid(4) == 3 || y.rem_euclid(4) == 3 { None } else if x == y { Some(Ordering::Equal) } else if (x - y).rem_euclid(2) == 1 { None } else { x.partial_cmp(&y) }
     }
     pub fn m_cmp_rev<T: Key + ?Sized>(a: &T, b: &T) -> Ordering { b.key().cmp(&a.key()) }
     pub fn m_cmp_mod<T: Key + ?Sized>(a: &T, b: &T) -> Ordering { a.key().rem_euclid(3).cmp(&b.key().rem_euclid(3)) }
